@@ -137,6 +137,9 @@ def run(tier):
         if via in ("gerr", "gpanic") and kind != "str":
             continue
         fams.append(("errval",) + gen_prot.errval_program(kind, catcher, level, via) + (None,))
+        if kind == "str" and level in (None, 2):
+            for cs in ("emptykey", "oddkey", "method"):
+                fams.append(("errval",) + gen_prot.errval_program(kind, catcher, level, via, cs) + (None,))
     progsA = lsem.number(fams)
     verd, cov, allv, allo, stats = lsem.run_families(
         PROP, tier, progsA,
